@@ -27,7 +27,10 @@ public_t = A(f"1==scenario.topology[{T}[0]][0]")
 connected = A(f"1==scenario.topology[{SRC}[0]][{T}[0]]")
 same_subnet = A(f"{T}[0]=={SRC}[0]")
 fw_allows = A(f"action.service in scenario.firewall[({SRC}[0], {T}[0])]")
-host_denies = A(f"action.service in scenario.hosts[{T}].firewall.get({SRC}, [])")
+# (an address without an entry in the host's firewall denies nothing: `.get(src, [])`, or a
+# membership test followed by the subscript - one normal form, sa/canon.py)
+host_denies = f_and([A(f"{SRC} in scenario.hosts[{T}].firewall"),
+                     A(f"action.service in scenario.hosts[{T}].firewall[{SRC}]")])
 inet_fw_allows = A(f"action.service in scenario.firewall[(0, {T}[0])]")
 src_comp = cell("state", SRC, "compromised")
 src_acc = f_not(A(f"state[{SRC}].access<action.req_access"))
